@@ -224,7 +224,9 @@ def end_to_end(res, n):
             if i % 2 == 1:
                 # a seed corpus in which every tree satisfies all constraints: each seed is a solution the first time it is seen
                 k_seeds = rng.choice([2, 4, 6])
-                while len(seeds) < k_seeds:
+                for _try in range(400):
+                    if len(seeds) >= k_seeds:
+                        break
                     w = ""
                     for _k in range(r):
                         if variants[_k] == "alt" and rng.random() < 0.5:
@@ -232,9 +234,10 @@ def end_to_end(res, n):
                             continue
                         nn = rng.randint(0, 2) if variants[_k] == "zero" else rng.randint(1, 3)
                         w += ("L" if variants[_k] == "alt" else "") + str(nn) + "".join(rng.choice("xy") for _ in range(nn))
-                    if len(w) >= min(3, r) and w not in seeds:
+                    if len(w) >= 3 and w not in seeds:      # the where-clauses ask for at most 3 characters
                         seeds.append(w)
-                psize = rng.choice([k_seeds, k_seeds, 3 * k_seeds])
+                k_seeds = len(seeds)
+                psize = max(2, rng.choice([k_seeds, k_seeds, 3 * k_seeds]))
                 kw = dict(desired_solutions=k_seeds + 3, max_generations=6, population_size=psize, initial_population=list(seeds))
                 res.bump("e2e_with_seed_corpus")
             else:
